@@ -5,6 +5,9 @@ tools/seeded.py confirm <src_dir> <name>     confirm a sub-agent's change in a f
 tools/seeded.py run <name> [<prop> ...]      apply seeded/<name>/patch.diff to /repo, run the property checks
                                               (default: the property named in meta.json), undo, record the outcome
 tools/seeded.py runall                       the same for every seeded change
+tools/seeded.py prun [-j N] [<name> ...]     the same, N at a time: each change is applied to its own scratch worktree of
+                                              /repo's HEAD (VERIF_REPO), evidence goes to a scratch directory
+                                              (VERIF_EVIDENCE); /repo and /verif/evidence are not touched
 """
 import json
 import os
@@ -109,8 +112,58 @@ def run(name, props=None):
     json.dump(meta, open(os.path.join(dst, "meta.json"), "w"), indent=1)
 
 
+def prun_one(name):
+    dst = os.path.join(VERIF, "seeded", name)
+    meta = json.load(open(os.path.join(dst, "meta.json")))
+    prop = meta["property"]
+    wt = tempfile.mkdtemp(prefix="seedrun-")
+    os.rmdir(wt)
+    ev = tempfile.mkdtemp(prefix="seedev-")
+    rc, out = sh(["git", "-C", REPO, "worktree", "add", "-q", "--detach", wt, "HEAD"])
+    assert rc == 0, out
+    try:
+        rc, out = sh(["git", "apply", os.path.join(dst, "patch.diff")], cwd=wt)
+        if rc != 0:
+            rc, out = sh(["git", "apply", "--3way", os.path.join(dst, "patch.diff")], cwd=wt)
+            sh(["git", "reset", "-q"], cwd=wt)
+        if rc != 0:
+            return name, prop, None, "PATCH-DOES-NOT-APPLY " + out.splitlines()[0][:160]
+        env = dict(os.environ, VERIF_REPO=wt, VERIF_EVIDENCE=ev)
+        t0 = time.time()
+        rc, out = sh([PY, "harness/check.py", prop, "--tier", "quick"], cwd=VERIF, timeout=3600, env=env)
+        lines = [l for l in out.splitlines() if l.startswith(("VIOLATION", "PASS", "FAIL", "BROKEN"))]
+        lines = [l.replace(ev, "evidence") for l in lines]
+        detail = [l for l in out.splitlines() if l.startswith("  ")][:2]
+        meta["checks"][prop] = {"exit": rc, "caught": rc == 1, "lines": lines + detail, "wall_s": round(time.time() - t0, 1)}
+        json.dump(meta, open(os.path.join(dst, "meta.json"), "w"), indent=1)
+        return name, prop, rc, " | ".join(lines + detail)[:300]
+    finally:
+        sh(["git", "-C", REPO, "worktree", "remove", "--force", wt])
+        shutil.rmtree(ev, ignore_errors=True)
+
+
+def prun(names, jobs):
+    from concurrent.futures import ThreadPoolExecutor
+
+    names = names or [n for n in sorted(os.listdir(os.path.join(VERIF, "seeded")))
+                      if os.path.exists(os.path.join(VERIF, "seeded", n, "patch.diff"))]
+    missed = []
+    with ThreadPoolExecutor(jobs) as ex:
+        for name, prop, rc, text in ex.map(prun_one, names):
+            print(name, prop, "exit", rc, "|", text, flush=True)
+            if rc != 1:
+                missed.append(name)
+    print("seeded changes run: %d, caught: %d, not caught: %s" % (len(names), len(names) - len(missed), missed))
+
+
 if __name__ == "__main__":
-    if sys.argv[1] == "confirm":
+    if sys.argv[1] == "prun":
+        args = sys.argv[2:]
+        jobs = 6
+        if args[:1] == ["-j"]:
+            jobs, args = int(args[1]), args[2:]
+        prun(args, jobs)
+    elif sys.argv[1] == "confirm":
         sys.exit(0 if confirm(sys.argv[2], sys.argv[3]) else 1)
     elif sys.argv[1] == "run":
         run(sys.argv[2], sys.argv[3:] or None)
